@@ -298,6 +298,19 @@ int handle_routing_response(const cJSON *json_rpc, const cJSON *response, const 
 	}
 }
 
+void cancel_routing_request(const struct peer *owner_peer, struct routing_request *request)
+{
+	if (unlikely(HASHTABLE_REMOVE(route_table, owner_peer->routing_table, request->id, NULL) != HASHTABLE_SUCCESS)) {
+		log_peer_err(owner_peer, "cancel_routing_request: Hashtable remove not successful");
+	}
+
+	if (unlikely(request->timer.cancel(&request->timer) < 0)) {
+		log_peer_err(owner_peer, "Could not cancel request timer!\n");
+	}
+
+	cjet_timer_destroy(&request->timer);
+}
+
 static void send_shutdown_response(const struct peer *p,
                                    const cJSON *origin_request_id)
 {
